@@ -6,10 +6,16 @@ package verifharness
 // TestC06 covers (a) the message level (c06_msg_test.go) and (b) the contract level (c06_evm_test.go).
 
 import (
+	"crypto/sha256"
+	"encoding/hex"
 	"fmt"
 	"sort"
 	"strings"
 	"testing"
+
+	sdk "github.com/cosmos/cosmos-sdk/types"
+	"github.com/ethereum/go-ethereum/common"
+	"github.com/ethereum/go-ethereum/crypto"
 
 	xibctesting "github.com/teleport-network/teleport/x/xibc/testing"
 )
@@ -17,12 +23,16 @@ import (
 var (
 	c06T = xibctesting.GetChainID(0)
 	c06S = xibctesting.GetChainID(1)
+	// a second Tendermint-secured counterparty with its own real chain, light client and proofs
+	c06S2 = xibctesting.GetChainID(2)
 )
+
+func c06IsTM(chain string) bool { return chain == c06S || chain == c06S2 }
 
 // chain names; the last three are CASE SIBLINGS: "TSS-A" / "Tss-A" of "tss-a" (the second never has a client) and
 // the upper-case spelling of S (a TSS client when it exists). Chain names are compared byte-wise by the code.
 var c06SUp = strings.ToUpper(c06S)
-var c06Chains = []string{c06S, "tss-a", "tss-b", "tss-up", "nocl", c06T, "TSS-A", "Tss-A", c06SUp}
+var c06Chains = []string{c06S, "tss-a", "tss-b", "tss-up", "nocl", c06T, "TSS-A", "Tss-A", c06SUp, c06S2}
 
 // chains that may get a TSS client
 var c06TssChains = []string{"tss-a", "tss-b", "tss-up", "TSS-A", c06SUp}
@@ -45,6 +55,7 @@ type c06Gen struct {
 	recvSeq map[string]uint64 // next fresh sequence per source chain
 	commits map[string][]uint64
 	ackSeq  map[string]uint64
+	heavy   bool   // this history also registers > 100 relayers / a relayer with > 100 chains
 	kind    int    // data kind forced for the next receives (0 = random)
 	pf      string // " pf=<hex>" appended to the next recv / ack for a chain other than S ("" = none)
 	forceRl *string
@@ -69,7 +80,7 @@ func (g *c06Gen) signerFor(chain string) (raw, canon string) {
 	}
 	var cands []string
 	for a, reg := range g.w.lastReg {
-		if c06Contains(reg.chains, chain) {
+		if c06Contains(reg.chains, chain) && c06AcctOf(strings.ToLower(a)) != nil { // only accounts the harness can sign for
 			cands = append(cands, a)
 		}
 	}
@@ -208,7 +219,7 @@ func (g *c06Gen) genMultichain() {
 // the proof bytes the next message carries for a chain that is not S: explicit (directed step) or, for TSS
 // chains, one of the five kinds at random in a third of the messages
 func (g *c06Gen) proofField(chain, raw string) string {
-	if chain == c06S {
+	if c06IsTM(chain) {
 		return ""
 	}
 	if g.pf != "" {
@@ -218,7 +229,11 @@ func (g *c06Gen) proofField(chain, raw string) string {
 	if !isTss || g.r.Rng.Intn(3) > 0 {
 		return ""
 	}
-	return " pf=" + g.proofKind(g.r.Rng.Intn(5), t, raw)
+	k := g.r.Rng.Intn(10)
+	if k == 9 && g.r.Rng.Intn(10) > 0 {
+		k = 1 // the 64 KiB proof only now and then
+	}
+	return " pf=" + g.proofKind(k, t, raw)
 }
 
 // (a) empty (b) garbage (c) exactly the configured TSS address string (d) another account's address (e) the signer's own address
@@ -230,6 +245,13 @@ func (g *c06Gen) proofKind(k int, tssAddr, raw string) string {
 		return hx([]byte{0xde, 0xad, 0xbe, 0xef, byte(g.r.Rng.Intn(256))})
 	case 2:
 		return hxs(tssAddr)
+	case 5, 6, 7, 8, 9: // boundary lengths 1, 20, 32, 64, 1<<16 (0 is kind (a))
+		n := map[int]int{5: 1, 6: 20, 7: 32, 8: 64, 9: 1 << 16}[k]
+		b := make([]byte, n)
+		for i := range b {
+			b[i] = byte(g.r.Rng.Intn(256))
+		}
+		return hx(b)
 	case 3:
 		for i := 0; i < 20; i++ {
 			if a := c06Accts[g.r.Rng.Intn(c06NAcct)]; !c06SameAccount(a.lower, tssAddr) && !c06SameAccount(a.lower, raw) {
@@ -256,6 +278,64 @@ func (g *c06Gen) okCommit(dst string) {
 	}
 }
 
+// Restart in the middle of a history with at least two relayers registered for the same chain and others for
+// different chains: afterwards every relayer keeps exactly its own chains and its own counterparty addresses.
+func (g *c06Gen) genRestart(mode string) {
+	r := g.r
+	x := []string{c06S, c06S2}[r.Rng.Intn(2)]
+	other := []string{"nocl", "tss-b", "Tss-A", c06SUp, c06S, c06S2}[r.Rng.Intn(6)]
+	if other == x {
+		other = "nocl"
+	}
+	perm := r.Rng.Perm(c06NAcct - 1)
+	A, B, C := c06Accts[perm[0]], c06Accts[perm[1]], c06Accts[perm[2]]
+	g.run(fmt.Sprintf("reg 1 %s 2 %s %s 2 %s %s", hxs(A.lower), hxs(x), hxs(other), hxs("restart-a-on-x"), hxs("restart-a-on-other")))
+	g.run(fmt.Sprintf("reg 1 %s 1 %s 1 %s", hxs(B.lower), hxs(x), hxs("restart-b-on-x")))
+	g.run(fmt.Sprintf("reg 1 %s 1 %s 1 %s", hxs(C.lower), hxs(other), hxs("restart-c-on-other")))
+	g.run("restart " + mode)
+	for _, a := range []c06Acct{A, B, C} {
+		for _, c := range []string{x, other} {
+			g.run(fmt.Sprintf("q %s %s %s", hxs(c), hxs(a.lower), hxs("RESTART-B-ON-X")))
+			g.genUpd(a.lower, a.lower, c, true)
+			g.genRecv(a.lower, a.lower, c, true)
+		}
+	}
+	g.genAck(A.lower, A.lower, x, true)
+}
+
+// more than 100 relayers, and one relayer with more than 100 chains, across a restart
+func (g *c06Gen) genManyRelayers(mode string) {
+	r := g.r
+	n := 101 + r.Rng.Intn(25)
+	for i := 0; i < n; i++ {
+		addr := sdk.AccAddress(append(make([]byte, 18), byte(i/256+1), byte(i))).String()
+		g.run(fmt.Sprintf("reg 1 %s 1 %s 1 %s", hxs(addr), hxs(c06Chains[i%4]), hxs(fmt.Sprintf("many-%03d", i))))
+	}
+	big := c06Accts[r.Rng.Intn(c06NAcct-1)]
+	m := 101 + r.Rng.Intn(20)
+	parts := []string{"reg", "1", hxs(big.lower), fmt.Sprint(m)}
+	for i := 0; i < m; i++ {
+		c := fmt.Sprintf("chain-%03d", i)
+		if i == m-1 {
+			c = c06S // the chain that matters comes last
+		}
+		parts = append(parts, hxs(c))
+	}
+	parts = append(parts, fmt.Sprint(m))
+	for i := 0; i < m; i++ {
+		parts = append(parts, hxs(fmt.Sprintf("big-%03d", i)))
+	}
+	g.run(strings.Join(parts, " "))
+	g.run("restart " + mode)
+	last := sdk.AccAddress(append(make([]byte, 18), byte((n-1)/256+1), byte(n-1))).String()
+	g.run(fmt.Sprintf("q %s %s %s", hxs(c06Chains[(n-1)%4]), hxs(last), hxs(fmt.Sprintf("MANY-%03d", n-1))))
+	g.run(fmt.Sprintf("q %s %s %s", hxs(c06S), hxs(big.lower), hxs(fmt.Sprintf("big-%03d", m-1))))
+	g.run(fmt.Sprintf("q %s %s %s", hxs("chain-100"), hxs(big.lower), hxs("big-100")))
+	g.genUpd(big.lower, big.lower, c06S, true)
+	g.genRecv(big.lower, big.lower, c06S, true)
+	g.genAck(big.lower, big.lower, c06S, true)
+}
+
 // A registration that only ran on a DISCARDED context branch (dry run of a submitted proposal, failed multi-step
 // execution, a real MsgSubmitProposal that never passes) confers nothing: afterwards the named account tries every
 // lookup / message kind on the named chain, previously registered accounts keep exactly what they had, and a
@@ -263,7 +343,7 @@ func (g *c06Gen) okCommit(dst string) {
 func (g *c06Gen) genDiscarded() {
 	r := g.r
 	modes := []string{"drop", "fail", "gov"}
-	targets := []string{c06S}
+	targets := []string{c06S, c06S2}
 	for _, c := range c06TssChains {
 		if _, ok := g.tss[c]; ok {
 			targets = append(targets, c)
@@ -288,7 +368,7 @@ func (g *c06Gen) genDiscarded() {
 		}
 	}
 	only := "dry-only-address"
-	if x == c06S {
+	if c06IsTM(x) {
 		seq := g.ackSeq[x] + 1
 		if len(g.commits[x]) > 0 {
 			seq = g.commits[x][0]
@@ -315,7 +395,7 @@ func (g *c06Gen) genDiscarded() {
 		g.run(fmt.Sprintf("q %s %s %s", hxs(chain), hxs(raw), hxs(strings.ToUpper(rl))))
 		g.genUpd(raw, canon, chain, true)
 		g.genRecv(raw, canon, chain, true)
-		if chain != c06S {
+		if !c06IsTM(chain) {
 			g.okCommit(chain)
 		}
 		g.forceRl = &rl
@@ -327,7 +407,9 @@ func (g *c06Gen) genDiscarded() {
 	// a previously (committed) registered relayer of some chain: a discarded re-registration must not move it
 	var regd []string
 	for a := range g.w.lastReg {
-		regd = append(regd, a)
+		if c06AcctOf(strings.ToLower(a)) != nil {
+			regd = append(regd, a)
+		}
 	}
 	sort.Strings(regd)
 	if len(regd) > 0 {
@@ -370,7 +452,7 @@ func (g *c06Gen) genCaseSiblings() {
 		raw, canon = t, strings.ToLower(t)
 	}
 	only := "sibling-only-address"
-	if x == c06S { // the acknowledgement S committed fixes the relayer field
+	if c06IsTM(x) { // the acknowledgement S committed fixes the relayer field
 		seq := g.ackSeq[x] + 1
 		if len(g.commits[x]) > 0 {
 			seq = g.commits[x][0]
@@ -387,7 +469,7 @@ func (g *c06Gen) genCaseSiblings() {
 		g.run(fmt.Sprintf("q %s %s %s", hxs(chain), hxs(raw), hxs(strings.ToUpper(rl))))
 		g.genUpd(raw, canon, chain, true)
 		g.genRecv(raw, canon, chain, true)
-		if chain != c06S {
+		if !c06IsTM(chain) {
 			g.okCommit(chain)
 		}
 		g.forceRl = &rl
@@ -451,7 +533,11 @@ func (g *c06Gen) genTssProofs() {
 	}
 	g.forceRl = &payout
 	defer func() { g.forceRl, g.pf = nil, "" }()
-	for _, k := range r.Rng.Perm(5) {
+	kinds := append(r.Rng.Perm(5), 5+r.Rng.Intn(4))
+	if r.Rng.Intn(6) == 0 {
+		kinds = append(kinds, 9)
+	}
+	for _, k := range kinds {
 		for _, si := range r.Rng.Perm(len(signers)) {
 			sg := signers[si]
 			g.pf = " pf=" + g.proofKind(k, t, sg[0])
@@ -506,7 +592,7 @@ func (g *c06Gen) genRecv(raw, canon, src string, valid bool) string {
 			proofOK = false
 		}
 	}
-	if src == c06S {
+	if c06IsTM(src) {
 		if valid || g.r.Rng.Intn(4) > 0 {
 			kind = c06PoolKind(seq) // the packet S committed
 		}
@@ -514,7 +600,7 @@ func (g *c06Gen) genRecv(raw, canon, src string, valid bool) string {
 			proofOK = false
 		}
 	}
-	if src != c06S && g.r.Rng.Intn(2) == 0 {
+	if !c06IsTM(src) && g.r.Rng.Intn(2) == 0 {
 		proofOK = !proofOK // ignored for TSS / absent clients
 	}
 	out := g.run(fmt.Sprintf("recv %s %s %s %s %d %d %s ?", hxs(raw), hxs(canon), hxs(src), hxs(dst), seq, kind, c06B(proofOK)) + g.proofField(src, raw))
@@ -611,7 +697,7 @@ func (g *c06Gen) genAck(raw, canon, dst string, valid bool) string {
 	if g.forceRl != nil {
 		rl = *g.forceRl
 	}
-	if dst == c06S {
+	if c06IsTM(dst) {
 		rl = c06PoolAckRelayer(seq)
 	}
 	hasData := true
@@ -636,10 +722,10 @@ func (g *c06Gen) genAck(raw, canon, dst string, valid bool) string {
 	if rl == "" && seq%4 != 2 {
 		dec = false // all-default acknowledgement: refused by the msg server
 	}
-	if dst == c06S && (seq > c06Pool || src != c06T || !c06AckWellFormed(seq, rl, dec) || rl != c06PoolAckRelayer(seq)) {
+	if c06IsTM(dst) && (seq > c06Pool || src != c06T || !c06AckWellFormed(seq, rl, dec) || rl != c06PoolAckRelayer(seq)) {
 		proofOK = false
 	}
-	if dst != c06S && g.r.Rng.Intn(2) == 0 {
+	if !c06IsTM(dst) && g.r.Rng.Intn(2) == 0 {
 		proofOK = !proofOK
 	}
 	out := g.run(fmt.Sprintf("ack %s %s %s %s %d %s %s %s %s %s %s", hxs(raw), hxs(canon), hxs(src), hxs(dst), seq, c06B(hasData),
@@ -675,6 +761,7 @@ func (g *c06Gen) history(steps int, sweep bool) {
 	g.ackSeq = map[string]uint64{}
 	g.run("reset " + hxs(c06T))
 	g.run("mkclient " + hxs(c06S) + " oth")
+	g.run("mkclient " + hxs(c06S2) + " oth")
 	for _, c := range c06TssChains {
 		if r.Rng.Intn(10) < 7 {
 			a := c06Accts[r.Rng.Intn(c06NAcct)]
@@ -712,6 +799,14 @@ func (g *c06Gen) history(steps int, sweep bool) {
 	if r.Rng.Intn(2) == 0 {
 		g.genDiscarded()
 	}
+	if x := r.Rng.Intn(8); x < 2 {
+		g.genRestart("module")
+	} else if x == 2 {
+		g.genRestart("app")
+	}
+	if g.heavy {
+		g.genManyRelayers([]string{"module", "app"}[r.Rng.Intn(2)])
+	}
 	if selfClient {
 		// receives of packets whose source is this chain: destination without client (error ack "dstChain not
 		// found") or with client (relay, no ack) — from the TSS account of the own-name client, registered for it
@@ -733,7 +828,7 @@ func (g *c06Gen) history(steps int, sweep bool) {
 		}
 		chain := g.pick(c06Chains)
 		if r.Rng.Intn(3) > 0 {
-			chain = g.pick(c06Chains[:4])
+			chain = g.pick(append([]string{c06S2}, c06Chains[:4]...))
 		}
 		valid := r.Rng.Intn(4) > 0
 		var raw, canon string
@@ -743,8 +838,10 @@ func (g *c06Gen) history(steps int, sweep bool) {
 			raw, canon = g.signer()
 		}
 		switch x := r.Rng.Intn(100); {
-		case x < 3:
+		case x < 2:
 			g.genDiscarded()
+		case x < 3:
+			g.run("restart " + []string{"module", "module", "app"}[r.Rng.Intn(3)])
 		case x < 14:
 			g.genReg(chain)
 		case x < 24:
@@ -795,6 +892,7 @@ func TestC06(t *testing.T) {
 		r.Op(op, "setup-failed")
 	}
 	failed := false
+	histKey := ""
 	run := func(op string) string {
 		var out string
 		if failed {
@@ -802,7 +900,7 @@ func TestC06(t *testing.T) {
 		}
 		switch strings.Fields(op)[0] {
 		case "evmreset":
-			if p, m := safely(func() { ew = newC06EvmWorld(t) }); p {
+			if p, m := safely(func() { ew = newC06EvmWorld(t); c06CurEvm = ew }); p {
 				failed = true
 				setupFailed(op, m)
 				return "setup-failed"
@@ -810,7 +908,7 @@ func TestC06(t *testing.T) {
 			ew.hist = []string{op}
 			r.Op(op, "ok")
 			return "ok"
-		case "addr", "const", "row", "call", "whoami":
+		case "addr", "const", "row", "call", "whoami", "emit", "spoof", "evmrestart", "evmupgrade":
 			if ew == nil {
 				t.Fatalf("op before evmreset: %s", op)
 			}
@@ -839,8 +937,15 @@ func TestC06(t *testing.T) {
 			op, out = w.apply(r, op)
 		}
 		r.Op(op, out)
+		// distinct = distinct history prefix ending in a message; keyed by a running digest of the history (the joined
+		// text itself would be quadratic in memory: that made long thorough runs thrash)
+		if strings.HasPrefix(op, "reset") {
+			histKey = ""
+		}
+		sum := sha256.Sum256([]byte(histKey + "\n" + op))
+		histKey = hex.EncodeToString(sum[:12])
 		if strings.HasPrefix(op, "upd") || strings.HasPrefix(op, "recv") || strings.HasPrefix(op, "ack") {
-			r.Nontrivial(strings.Join(w.hist, ";"))
+			r.Nontrivial(histKey)
 		}
 		return out
 	}
@@ -862,34 +967,61 @@ func TestC06(t *testing.T) {
 	c06EvmTable(run)
 	hist, sweepEvery := 80, 10
 	if r.Tier == "thorough" {
-		hist, sweepEvery = 350, 5
+		hist, sweepEvery = 300, 5
 	}
 	if n := envInt("VERIF_N", 0); n > 0 {
 		hist = int(n)
 	}
 	for i := 0; i < hist; i++ {
+		g.heavy = i%40 == 7 // > 100 relayers / > 100 chains: in a few histories only
 		g.history(10+r.Rng.Intn(30), i%sweepEvery == sweepEvery-1)
 	}
 }
 
 // the exhaustive {non-view method} x {call path} table of the contract level
+// the world of the current contract-level table (for the address a contract creation by the EOA will get)
+var c06CurEvm *c06EvmWorld
+
+func c06NextCreate() string {
+	w := c06CurEvm
+	nonce := w.app.EvmKeeper.GetNonce(w.mw.T.GetContext(), c06EOA.addr2())
+	return hx(crypto.CreateAddress(c06EOA.addr2(), nonce).Bytes())
+}
+
 func c06EvmTable(run func(string) string) {
 	run("evmreset")
+	c06EvmTableBody(run, true)
+	// guards live in the byte code and its constants: a restart from the exported state and the v0.2 upgrade handler
+	// (which deletes and re-installs the system contracts) must leave every cell as it was
+	run("evmrestart")
+	c06EvmTableBody(run, false)
+	run("evmupgrade")
+	c06EvmTableBody(run, false)
+}
+
+func c06EvmTableBody(run func(string) string, first bool) {
 	classes := []string{"packetModule", "aggregateModule", "packetContract", "endpointContract", "executeContract"}
 	var addrs []string
 	for _, c := range classes {
 		a, _ := (&c06EvmWorld{}).classAddr(c)
 		addrs = append(addrs, hx(a.Bytes()))
-		run("addr " + c + " " + hx(a.Bytes()))
+		if first {
+			run("addr " + c + " " + hx(a.Bytes()))
+		}
 	}
 	run("const packet packetModule")
 	run("const endpoint aggregateModule")
 	run("const endpoint packetContract")
 	run("const packet endpointContract")
 	eoa := hx(c06EOA.addr)
-	for _, p := range [][]string{{"eoa", eoa}, {"contract", eoa, hx(c06ForwarderAddr.Bytes())}, {"execute", eoa}, {"packet"}, {"module", addrs[0]}, {"module", addrs[1]}} {
+	helper := func(kind string, a common.Address) []string { return []string{kind, eoa, hx(a.Bytes())} }
+	for _, p := range [][]string{{"eoa", eoa}, {"contract", eoa, hx(c06ForwarderAddr.Bytes())}, {"execute", eoa}, {"packet"}, {"module", addrs[0]}, {"module", addrs[1]},
+		helper("delegatecall", c06DelegateAddr), helper("callcode", c06CallcodeAddr), helper("staticcall", c06StaticAddr)} {
 		run("whoami " + strings.Join(p, " "))
 	}
+	run("emit " + eoa + " " + hx(c06EmitterAddr.Bytes()))
+	run("emit packet " + hx(c06EmitterAddr.Bytes()))
+	run("spoof agent-send")
 	for _, m := range c06Methods() {
 		out := run("row " + m.contract + " " + m.name)
 		if _, priv := c06PropertyCaller[m.contract+"."+m.name]; out == "row anyone" && !priv {
@@ -899,6 +1031,10 @@ func c06EvmTable(run func(string) string) {
 		run(pre + "eoa " + eoa)
 		run(pre + "contract " + eoa + " " + hx(c06ForwarderAddr.Bytes()))
 		run(pre + "contract " + eoa + " " + hx(c06SwallowAddr.Bytes()))
+		run(pre + "delegatecall " + eoa + " " + hx(c06DelegateAddr.Bytes()))
+		run(pre + "callcode " + eoa + " " + hx(c06CallcodeAddr.Bytes()))
+		run(pre + "staticcall " + eoa + " " + hx(c06StaticAddr.Bytes()))
+		run(pre + "ctor " + eoa + " " + c06NextCreate())
 		run(pre + "execute " + eoa)
 		run(pre + "packet")
 		for _, a := range addrs {
